@@ -5,12 +5,12 @@ set -u
 S=/verif/seeded/$1
 W=$(mktemp -d /tmp/confirm.XXXXXX)
 git -C /repo worktree add -q --detach $W HEAD
-cd $W
-base_demo=$(PYTHONPATH=$W /venv/bin/python $S/demo.py >/dev/null 2>&1; echo $?)
+cd $W; mkdir -p $W/_seeded/x; cp $S/demo.py $W/_seeded/x/demo.py; DEMO=$W/_seeded/x/demo.py
+base_demo=$(PYTHONPATH=$W /venv/bin/python $DEMO >/dev/null 2>&1; echo $?)
 git apply $S/patch.diff; ap=$?
 PYTHONPATH=$W /venv/bin/python -m pytest -q -p no:cacheprovider --timeout=900 tests > $W/_t.log 2>&1
 passed=$(grep -oE '[0-9]+ passed' $W/_t.log | tail -1 | grep -oE '[0-9]+')
-mut_demo=$(PYTHONPATH=$W timeout 600 /venv/bin/python $S/demo.py >/dev/null 2>&1; echo $?)
+mut_demo=$(PYTHONPATH=$W timeout 600 /venv/bin/python $DEMO >/dev/null 2>&1; echo $?)
 cd /
 git -C /repo worktree remove --force $W
 rm -rf $W
